@@ -100,7 +100,7 @@ def PM_KNOWN(dev):
     """Memory errors that are consequences of the findings already listed under C06 (vine updates on histories with
     removals, identifiers != positions, barcode-less RU with map containers, non-intrusive chain columns)."""
     from checks import c06
-    return any(m(dev) for m in c06.MATCHERS.values()) or (dev.get("cfg", "").startswith("RUv/") and dev.get("cfg", "").endswith("/gap"))
+    return any(m(dev) for m in list(c06.MATCHERS.values())) or (dev.get("cfg", "").startswith("RUv/") and dev.get("cfg", "").endswith("/gap"))
 
 
 def threads_part(ev, unknown, tier):
